@@ -177,3 +177,6 @@ def run(ctx):
         i2 = max(flat.find('(count = psf->write_'), flat.find('(count = psf_fwrite('))
         ok = 0 <= i1 < i2
         ctx.ob('SET-GUARD', name, ok, g.loc(g.body), 'have_written %s' % ('set before the transfer' if ok else 'NOT set before the transfer: late metadata would be accepted and overwrite audio'), None)
+
+    from rules.C09 import reject_before_mutate
+    reject_before_mutate(ctx, prog)
